@@ -202,7 +202,7 @@ func serveOn(s *smtp.Server, l *oneListener, conn netConn) bool {
 	case <-l.conn.closed:
 	case <-time.After(10 * time.Second):
 	}
-	ctx, cancel := context.WithTimeout(context.Background(), 4*time.Second)
+	ctx, cancel := context.WithTimeout(context.Background(), 8*time.Second)
 	defer cancel()
 	// Shutdown closes the listener and waits for the connection's goroutine
 	err := s.Shutdown(ctx)
